@@ -2,7 +2,7 @@
    Statements only (copied from the lemma libraries); every proof is a bare
    `exact`; see the cited files in coq/proofs for the proofs. *)
 From Coq Require Import List NArith ZArith Bool Arith Sorting.Sorted Sorting.Permutation.
-From D2P Require Import Str Err Xml TableTypes Tables Fmt NumFmt Bullets Merge Collector Walk NumFmtFacts BulletsFacts PropGlue ShapeFacts FrameFacts SeqFacts PyVal Source SourceBase SourceNum.
+From D2P Require Import Str Err Xml TableTypes Tables Fmt NumFmt Bullets Merge Collector Walk NumFmtFacts BulletsFacts PropGlue ShapeFacts FrameFacts SeqFacts PyVal Source SourceBase SourceNum SourceFmt SourceForms SourceBullets.
 Import ListNotations.
 Open Scope N_scope.
 
@@ -200,3 +200,36 @@ Theorem C08_source_increment_list_counter :
                 enc_counts (fst (increment_list_counter d ilvl))]).
 Proof. exact src_increment_list_counter. Qed.
 Print Assumptions C08_source_increment_list_counter.
+
+(* SOURCE TIE: BulletGenerator.get_bullet_fmt as translated from the source text (with _get_numPr / _get_numId / _get_ilvl: try / except (StopIteration, KeyError) around next() and the attribute read) returns exactly the model's (numId, ilvl) for every paragraph element - the definition and level every marker and counter theorem of C08 starts from *)
+Theorem C08_source_get_bullet_fmt :
+  forall self p, tree_names_ok 4 p ->
+  S_BulletGenerator_get_bullet_fmt self (enc_fel p)
+  = Ok (VTuple [enc_ostr (fst (get_bullet_fmt p)); enc_ostr (snd (get_bullet_fmt p))]).
+Proof. exact src_get_bullet_fmt. Qed.
+Print Assumptions C08_source_get_bullet_fmt.
+
+(* SOURCE TIE: _get_numPr is the first w:numPr of the first w:pPr, None on any failure *)
+Theorem C08_source_get_numPr :
+  forall self p, tree_names_ok 2 p ->
+  S_BulletGenerator_get_numPr self (enc_fel p)
+  = Ok (match first_child_w p s_pPr with
+        | Some ppr => match first_child_w ppr s_numPr with Some n => enc_fel n | None => VNone end
+        | None => VNone
+        end).
+Proof. exact src_get_numPr. Qed.
+Print Assumptions C08_source_get_numPr.
+
+(* SOURCE TIE: _get_numId reads w:numId/@w:val, None on any failure *)
+Theorem C08_source_get_numId :
+  forall self n, tree_names_ok 2 n ->
+  S_BulletGenerator_get_numId self (enc_fel n) = Ok (enc_ostr (child_val_w n s_numId)).
+Proof. exact src_get_numId. Qed.
+Print Assumptions C08_source_get_numId.
+
+(* SOURCE TIE: _get_ilvl reads w:ilvl/@w:val, None on any failure *)
+Theorem C08_source_get_ilvl :
+  forall self n, tree_names_ok 2 n ->
+  S_BulletGenerator_get_ilvl self (enc_fel n) = Ok (enc_ostr (child_val_w n s_ilvl)).
+Proof. exact src_get_ilvl. Qed.
+Print Assumptions C08_source_get_ilvl.
